@@ -27,6 +27,19 @@ Theorem C10_operator_conflicts_exact :
   In (E012, n) (check_regex fi fo pr lf (S fuel) (RAlt id alts) recs) <-> OpConflict pr lf recs id n.
 Proof. exact operator_conflicts_exact. Qed.
 
+(* a left-recursive rule as a whole: its branches that are not left recursive are checked against each other like
+   those of any alternation, and every construct nested in any branch as in the first theorem *)
+Theorem C10_left_recursive_rule_alternation_exact :
+  forall fi fo pr lf fuel id alts recs c n,
+  is_ll1 c = true -> list_sum (map rsize alts) <= fuel ->
+  (In (c, n) (check_regex fi fo pr lf (S fuel) (RAlt id alts) recs) <->
+   (c = E011 /\ exists i op, nth_error (nonleft_of recs alts) i = Some op /\ n = rid_of op /\ has_predicate op = false
+                 /\ exists j o, i < j /\ nth_error (nonleft_of recs alts) j = Some o
+                                /\ share (get pr (rid_of op)) (get pr (rid_of o)))
+   \/ exists o, In o alts /\ Conflict fo pr o c n).
+Proof. exact top_alternation_exact. Qed.
+
 Print Assumptions C10_conflicts_reported_exactly.
 Print Assumptions C10_conflict_free_iff_ll1.
 Print Assumptions C10_operator_conflicts_exact.
+Print Assumptions C10_left_recursive_rule_alternation_exact.
